@@ -167,3 +167,18 @@ pub fn inv_ring_even<const B: usize, const L: usize>(nd: &mut Nd) {
     nd.assume(L == 0 || a.as_limbs()[0] & 1 == 0);
     chk!(nd, "C02.inv_ring.some_for_even", a.inv_ring().is_none());
 }
+
+/// inv_ring on every value of a narrow width: Some(i) (canonical, a*i = 1 mod 2^B) exactly for odd a
+pub fn inv_ring_narrow<const B: usize>(nd: &mut Nd) {
+    let m: u64 = (1u64 << B) - 1;
+    let x = (nd.u8() as u64) & m;
+    let a = Uint::<B, 1>::from_limbs([x]);
+    match a.inv_ring() {
+        Some(i) => {
+            let iv = i.as_limbs()[0];
+            chk!(nd, "C02.inv_ring.canonical", iv <= m);
+            chk!(nd, "C02.inv_ring.some", x & 1 == 1 && (x.wrapping_mul(iv)) & m == 1);
+        }
+        None => chk!(nd, "C02.inv_ring.none", x & 1 == 0),
+    }
+}
